@@ -102,4 +102,10 @@ def run {V : Type} (P : Params V) : Nat → Cfg V → Outcome V
 def init {V : Type} (bottomVal : V) (w : List (Sym × V)) : Cfg V :=
   { stack := [⟨0, 1, bottomVal⟩], rest := w, reds := [], req := 1, trace := [] }
 
+/-- the driver parameters for a dense table of grammar `G` (no `case` is emitted for rule 0) -/
+def dparams {V : Type} (G : Grammar) (T : Dense) (n : Nat) (sem : Nat → List V → V) (eofVal : V) : Params V :=
+  { L := cell T, errC := errCode n, accC := accCode n,
+    rule := fun r => if r = 0 then none else (G.rules[r]?).map (fun rl => (rl.lhs, rl.rhs.length)),
+    sem := sem, eofVal := eofVal }
+
 end Y.D
